@@ -227,9 +227,10 @@ pub fn js_of_op(op: &Value) -> String {
             let id = op["id"].as_u64().unwrap_or(0);
             let len = op["len"].as_u64().unwrap_or(0);
             let ctor = if matches!(op["kind"].as_str(), Some("sab" | "gsab")) { "SharedArrayBuffer" } else { "ArrayBuffer" };
+            let pat = if op["pat"].as_bool().unwrap_or(false) { format!(" (function (u) {{ for (var i = 0; i < u.length; i++) u[i] = (i * 37 + 11) & 255; }})(new Uint8Array(B[{id}]));") } else { String::new() };
             match op["max"].as_u64() {
-                Some(m) => format!("B[{id}] = new {ctor}({len}, {{ maxByteLength: {m} }});"),
-                None => format!("B[{id}] = new {ctor}({len});"),
+                Some(m) => format!("B[{id}] = new {ctor}({len}, {{ maxByteLength: {m} }});{pat}"),
+                None => format!("B[{id}] = new {ctor}({len});{pat}"),
             }
         }
         "newview" => {
@@ -388,7 +389,10 @@ impl<'a> Gen<'a> {
             "gsab" => "buf-growable-shared",
             _ => "buf-shared",
         });
-        self.ops.push(json!({"op":"newbuf","id":id,"kind":kind,"len":len,"max":max}));
+        // most buffers start with a position-dependent byte pattern, so that moves / copies of the
+        // wrong bytes are visible (an all-zero buffer hides them)
+        let pat = self.t.chance(200);
+        self.ops.push(json!({"op":"newbuf","id":id,"kind":kind,"len":len,"max":max,"pat":pat}));
         self.bufs.push(GBuf { kind, len, max, detached: false });
     }
 
@@ -866,9 +870,20 @@ impl<'a> Gen<'a> {
             9 => {
                 let Some(v) = self.pick_ta() else { return self.fallback() };
                 let len = self.cur_len(v);
-                let target = self.rel_arg(len, Some(v), true);
-                let start = self.rel_arg(len, Some(v), true);
-                let end = if self.t.chance(128) { self.rel_arg(len, Some(v), true) } else { Value::Null };
+                let mut target = self.rel_arg(len, Some(v), true);
+                let mut start = self.rel_arg(len, Some(v), true);
+                let mut end = if self.t.chance(128) { self.rel_arg(len, Some(v), true) } else { Value::Null };
+                if self.t.chance(90) && len >= 2 {
+                    // overlapping move whose byte distance is a multiple of 8 (word-wise copy paths), either direction
+                    let size = SIZES[self.views[v].ctor].max(1);
+                    let step = (8 / size).max(1) * (1 + self.t.below(2) as u64);
+                    let s0 = self.t.below(3) as u64;
+                    let (a, b) = if self.t.bool() { (s0 + step, s0) } else { (s0, s0 + step) };
+                    target = num(a as f64);
+                    start = num(b as f64);
+                    end = Value::Null;
+                    self.label("op-copyWithin-overlap-aligned");
+                }
                 self.label("op-copyWithin");
                 self.ops.push(json!({"op":"copyWithin","view":v,"target":target,"start":start,"end":end}));
             }
